@@ -1,9 +1,46 @@
-import Rs1090.Proofs.Decode.Wp
+/-
+BDS 6,1 aircraft status — lemmas on `Model/Decode/Bds61.lean`:
+panic-freedom (C01), serialisability (C07) and the squawk range (C08), for every reader state.
+-/
+import Rs1090.Proofs.Decode.FieldsLemmas
 import Rs1090.Model.Decode.Bds61
+import Rs1090.Props.C13
 namespace Rs1090.Model.Bds61
 open Rs1090 Rs1090.Model
 
-/-- STUB proof for the STUB reader (replaced together with the model) -/
-theorem read_noPanic : NoPanic read := by unfold read; exact noPanic_fail _
+/-- every 13-bit identity field prints as four octal digits (complete enumeration) -/
+theorem squawk_octal : ∀ raw, raw < 2 ^ 13 →
+    Constraint.holds .octal4 (jhex4 (squawk raw)) = true :=
+  Rs1090.Props.C13.enum 13 (by decide +kernel)
+
+theorem specFor_subtype : specFor (key! "subtype").id = none := rfl
+theorem specFor_emergency : specFor (key! "emergency_state").id = none := rfl
+theorem specFor_squawk : specFor (key! "squawk").id = some .octal4 := rfl
+
+/-- everything at once: the reader does not panic, and what it returns serialises and is in range -/
+theorem read_spec (s : Rd) : wp read (fun r _ => SerGood outerKeys r ∧ RangeGood r) s := by
+  unfold read
+  wp_run
+  rename_i st _ _ es _ _ raw _ hraw
+  refine ⟨?_, ?_⟩
+  · have hk := idsOk_spec (avoid := outerKeys)
+      (ids := Fields.ids [fld (key! "subtype") (.lit (subtypeName st)),
+        fld (key! "emergency_state") (.lit (emergencyName es)), fld (key! "squawk") (jhex4 (squawk raw))]) rfl
+    exact serGood_of_fields _ _ hk.1 hk.2 (by simp)
+  · apply rangeGood_of_fields
+    simp only [List.all_cons, List.all_nil, Bool.and_true, Bool.and_eq_true]
+    exact ⟨entryInRange_free _ _ specFor_subtype (by simp),
+           entryInRange_free _ _ specFor_emergency (by simp),
+           entryInRange_spec _ _ _ specFor_squawk (squawk_octal raw hraw)⟩
+
+theorem read_noPanic : NoPanic read := fun s => wp_mono (read_spec s) (fun _ _ _ => trivial)
+
+/-- C07: the result serialises, keys distinct and disjoint from the enclosing message's, values well formed -/
+theorem read_serGood : ∀ s, wp read (fun r _ => SerGood outerKeys r) s :=
+  fun s => wp_mono (read_spec s) (fun _ _ h => h.1)
+
+/-- C08: `squawk` is four octal digits -/
+theorem read_rangeGood : ∀ s, wp read (fun r _ => RangeGood r) s :=
+  fun s => wp_mono (read_spec s) (fun _ _ h => h.2)
 
 end Rs1090.Model.Bds61
